@@ -39,6 +39,40 @@ PRED = {
 }
 
 
+def cmp_set(d, c_term):
+    """the set of characters c for which the comparison d (a binop between c - possibly widened to
+    an integer - and a constant) holds, or None when d is not such a comparison"""
+    if d[0] != "binop" or d[1] not in ("Lt", "Le", "Gt", "Ge", "Eq", "Ne"):
+        return None
+
+    def side(t):
+        t = strip(t)
+        while t[0] == "cast" and t[1] in ("IntToInt", "CharToInt") or (t[0] == "cast" and len(t) > 3 and t[3] in ("u32", "u8", "u64", "usize")):
+            if t[0] != "cast":
+                break
+            wide = t[3] in ("u32", "u64", "usize", "u128", "i64", "i128")
+            if strip(t[2]) == strip(c_term) and not wide:
+                return None         # a narrowing cast of the character is not the character
+            t = strip(t[2])
+        if t == strip(c_term):
+            return "c"
+        if t[0] == "int":
+            return int(t[1])
+        return None
+
+    a, b = side(d[2]), side(d[3])
+    op = d[1]
+    if a == "c" and isinstance(b, int):
+        k = b
+    elif b == "c" and isinstance(a, int):
+        k = a
+        op = {"Lt": "Gt", "Le": "Ge", "Gt": "Lt", "Ge": "Le", "Eq": "Eq", "Ne": "Ne"}[op]
+    else:
+        return None
+    top = 0x10FFFF
+    return {"Lt": [(0, k - 1)] if k > 0 else [], "Le": [(0, k)], "Gt": [(k + 1, top)] if k < top else [], "Ge": [(k, top)], "Eq": [(k, k)], "Ne": ([(0, k - 1)] if k > 0 else []) + ([(k + 1, top)] if k < top else [])}[op]
+
+
 def inter(a, b):
     out = []
     for x0, x1 in a:
@@ -101,8 +135,11 @@ def pred_true_set(ctx, fn, cs, depth=0, c_param=1):
         while v[0] == "unop" and v[1] == "Not":
             neg = not neg
             v = v[2]
+        cm = cmp_set(v, c_term)
         if v[0] == "int":
             t, f = (cur, []) if v[1] else ([], cur)
+        elif cm is not None:
+            t, f = inter(cur, cm), minus(cur, cm)
         elif util.is_call(v) and v[1] in PRED and strip(v[2][0]) == c_term:
             t, f = inter(cur, PRED[v[1]]), minus(cur, PRED[v[1]])
         elif util.is_call(v) and v[1] in ctx.fb.bodies and strip(v[2][0]) == c_term:
@@ -179,6 +216,24 @@ def pred_true_set(ctx, fn, cs, depth=0, c_param=1):
     return norm_set(out)
 
 
+def _unit_ok(fb, body, st):
+    """`Ok(())` of a looked-through step such as `check_length(s)?` is not a verdict on the string"""
+    try:
+        ops = st["rv"].get("ops", [])
+        if len(ops) != 1:
+            return False
+        o = ops[0]
+        if o.get("k") == "const":
+            return (o.get("val") or {}).get("ck") == "zst"
+        pl = o.get("place")
+        if pl is not None and not pl["p"]:
+            t = body.local_ty(pl["l"])
+            return t is not None and t.k == "tuple" and t.s == "()"
+    except Exception:
+        pass
+    return False
+
+
 def validating_function(ctx):
     """the unique non-derived function that constructs NormalizedString (role, not name)"""
     # (a helper that a refactoring extracted and that was spliced back into every caller - say a
@@ -247,7 +302,7 @@ def check_bulk(ctx, rep, INNER_FN, se, pr):
         for s_ in body.blocks[bi]["stmts"]:
             if s_["k"] == "assign" and s_["rv"]["k"] == "aggregate" and s_["rv"].get("ak") == "adt":
                 pth, vn = s_["rv"]["path"], s_["rv"]["vname"]
-                if pth == "std::result::Result" and vn == "Ok":
+                if pth == "std::result::Result" and vn == "Ok" and not _unit_ok(fb, body, s):
                     bad.append("Ok")
                 if pth == "error::NormalizedStringError" and vn != "StringTooLong":
                     bad.append(vn)
@@ -354,7 +409,7 @@ def check_loop(ctx, rep, INNER_FN, se, pr, lp):
         for s in body.blocks[bi]["stmts"]:
             if s["k"] == "assign" and s["rv"]["k"] == "aggregate" and s["rv"].get("ak") == "adt":
                 pth, vn = s["rv"]["path"], s["rv"]["vname"]
-                if pth == "std::result::Result" and vn == "Ok":
+                if pth == "std::result::Result" and vn == "Ok" and not _unit_ok(fb, body, s):
                     bad.append("Ok")
                 if pth == "error::NormalizedStringError" and vn != "StringTooLong":
                     bad.append(vn)
@@ -458,8 +513,12 @@ def check_loop(ctx, rep, INNER_FN, se, pr, lp):
                         continue
                 break
             ts = fs = None
+            cm = cmp_set(d, c_term)
             if d[0] == "int" and d[2] == "bool":
                 ts, fs = (cs, []) if d[1] else ([], cs)
+            elif cm is not None:
+                # `matches!(c, ' '..='~')` and friends: plain comparisons of the character with constants
+                ts, fs = inter(cs, cm), minus(cs, cm)
             elif util.is_call(d) and d[1] in PRED and d[2][0] == c_term:
                 ts = inter(cs, PRED[d[1]])
                 fs = minus(cs, PRED[d[1]])
@@ -540,33 +599,51 @@ def check_tail(ctx, rep, INNER_FN):
     fb = ctx.fb
     INNER = INNER_FN
     # ------------------------------------------------------------ constructors delegate
-    new_inst = [p for p in fb.bodies if p.startswith(NS + "::new") and "inner" not in p]
-    nse = ctx.flat.run(NS + "::new")
-    good = False
-    if nse is not None:
-        calls = [i for i in nse.term_info.values() if i.get("k") == "call"]
-        inner_calls = [c for c in calls if c["name"] == INNER]
-        if len(inner_calls) == 1:
-            a = strip(inner_calls[0]["args"][0])
-            good = util.is_call(a, "std::convert::AsRef::as_ref") and strip(a[2][0]) == ("param", 1)
-            good = good and strip(nse.ret) == strip(inner_calls[0]["term"])
-    rep.check(good, "constructors", NS + "::new", "delegates", "new(s) = inner(s.as_ref())", "new does not hand s.as_ref() to the validating function and return its result")
-    for fn, conv in ((NS + "::from_str", None), (NS + "::from_string", "std::convert::Into::into"), ("<normalized_string::NormalizedString as std::convert::TryFrom<&str>>::try_from", None), ("<normalized_string::NormalizedString as std::convert::TryFrom<std::string::String>>::try_from", None)):
+    # every public constructor is the validating function itself or hands a text view of its own
+    # argument (as_ref / as_str / into / deref - nothing that edits the text) to another
+    # constructor or to the validating function, and returns what that returns
+    CONS = [NS + "::new", NS + "::from_str", NS + "::from_string", "<normalized_string::NormalizedString as std::convert::TryFrom<&str>>::try_from", "<normalized_string::NormalizedString as std::convert::TryFrom<std::string::String>>::try_from"]
+    VIEWS = ("std::convert::AsRef::as_ref", "<T as std::convert::Into<U>>::into", "std::convert::Into::into", "std::string::String::as_str", "<std::string::String as std::ops::Deref>::deref", "<std::string::String as std::convert::AsRef<str>>::as_ref", "std::borrow::Borrow::borrow", "<T as std::convert::From<T>>::from")
+    targets = {}
+    verdict = {}
+    for fn in CONS:
+        if fn == INNER:
+            verdict[fn] = (True, "is the validating function")
+            continue
         fse = ctx.flat.run(fn)
         if fse is None:
-            rep.violation("constructors", fn, "anchor", "constructor not found")
+            verdict[fn] = (None, "constructor not found")
             continue
         calls = [i for i in fse.term_info.values() if i.get("k") == "call"]
-        news = [c for c in calls if c["name"] == NS + "::new"]
-        good = len(news) == 1 and strip(fse.ret) == strip(news[0]["term"])
-        if good:
-            a = strip(news[0]["args"][0])
-            if conv:
-                good = util.is_call(a) and a[1] in (conv, "<T as std::convert::Into<U>>::into") and strip(a[2][0]) == ("param", 1)
-            else:
-                good = a == ("param", 1)
-            good = good and len(calls) == (2 if conv else 1)
-        rep.check(good, "constructors", fn, "delegates", "single call to NormalizedString::new with the argument", "%s is not a plain delegation to NormalizedString::new" % fn, fse.body.loc())
+        dele = [c for c in calls if c["name"] in CONS or c["name"] == INNER or c["name"].startswith(INNER + "::<") or (c["name"].split("::<")[0] in CONS)]
+        others = [c for c in calls if c not in dele and c["name"] not in VIEWS]
+        ok = len(dele) == 1 and not others and strip(fse.ret) == strip(dele[0]["term"])
+        why = "single call to %s with the argument" % (dele[0]["name"].split("::")[-1] if dele else "?")
+        if ok:
+            a = strip(dele[0]["args"][0])
+            while util.is_call(a) and a[1] in VIEWS and len(a[2]) == 1:
+                a = strip(a[2][0])
+            ok = a == ("param", 1)
+        if ok:
+            targets[fn] = dele[0]["name"].split("::<")[0]
+        verdict[fn] = (ok, why if ok else "%s is not a plain delegation to the validating function (calls %s)" % (fn, [c["name"].split("::")[-1] for c in calls]))
+    # the chain of delegations ends in the validating function
+    for fn in CONS:
+        ok, why = verdict[fn]
+        if ok is None:
+            rep.violation("constructors", fn, "anchor", "constructor not found")
+            continue
+        seen_ = set()
+        t = fn
+        while ok and t != INNER:
+            if t in seen_ or t not in targets:
+                ok = verdict.get(t, (False,))[0] is True and t == INNER
+                break
+            seen_.add(t)
+            t = targets[t]
+            if t != INNER and not verdict.get(t, (False,))[0]:
+                ok = False
+        rep.check(bool(ok), "constructors", fn, "delegates", why if ok else "delegates", why if not verdict[fn][0] else "%s does not end in the validating function" % fn, (ctx.flat.run(fn).body.loc() if ctx.flat.run(fn) is not None else None))
     # ------------------------------------------------------------ derives and field order
     dt = fb.derived_traits(NS)
     need = {"std::cmp::PartialEq", "std::cmp::Eq", "std::hash::Hash", "std::cmp::Ord", "std::cmp::PartialOrd", "std::clone::Clone"}
